@@ -9,7 +9,7 @@ std::string harness_run()
   sim::pthread_model_reset();
   sim::clock_reset();
   RunCfg rc;
-  rc.w = sim::thorough() ? wc::draw_cfg(5, 2, false) : wc::draw_cfg(4, 2, false);
+  rc.w = sim::thorough() ? wc::draw_cfg(5, 2, false, true) : wc::draw_cfg(4, 2, false, true);
   rc.solver = int(sim::cfg_weighted("solver", {4, 2, 2, 1}));
   rc.cycle = int(sim::cfg_weighted("cycle", {3, 1, 2}));
   rc.wait_order = int(sim::cfg_int("wait_order", 0, 1));
@@ -21,7 +21,7 @@ std::string harness_run()
   typedef Geometry::ConformalMesh<FEAT::Shape::Simplex<2>> Tria;
   switch(rc.w.mesh)
   {
-  case 0: case 2: Kit<Quad, Space::Lagrange1::Element>::run(rc); break;
+  case 0: case 2: case 6: case 8: Kit<Quad, Space::Lagrange1::Element>::run(rc); break;
   default: Kit<Tria, Space::Lagrange1::Element>::run(rc); break;
   }
   sim::clock_set_read_cost(0);
